@@ -25,7 +25,10 @@ fn writes() -> Vec<Vec<&'static str>> {
     vec![
         vec!["SET", "k", "v"], vec!["SET", "k", "v", "EX", "100"], vec!["SET", "k", "v", "NX"], vec!["SETNX", "k", "v"], vec!["SETEX", "k", "100", "v"], vec!["PSETEX", "k", "100000", "v"], vec!["MSET", "k", "v"],
         vec!["GETSET", "k", "v"], vec!["APPEND", "k", "x"], vec!["SETRANGE", "k", "1", "Z"], vec!["INCR", "k"], vec!["DECR", "k"], vec!["INCRBY", "k", "2"], vec!["DECRBY", "k", "2"],
-        vec!["DEL", "k"], vec!["RENAME", "k", "j"], vec!["RENAME", "j", "k"], vec!["RENAMENX", "j", "k"], vec!["EXPIRE", "k", "100"], vec!["PEXPIRE", "k", "100000"], vec!["PERSIST", "k"], vec!["EXPIRE", "k", "0"],
+        vec!["DEL", "k"], vec!["RENAME", "k", "j"], vec!["RENAME", "j", "k"], vec!["RENAMENX", "j", "k"],
+        // the other name in the same shard as k (k4), and in a shard before k's (s2: shard 0; j's is behind k's): RENAME
+        // takes one lock or two, and the two in address order
+        vec!["RENAME", "k", "k4"], vec!["RENAME", "k4", "k"], vec!["RENAMENX", "k4", "k"], vec!["RENAME", "k", "s2"], vec!["RENAME", "s2", "k"], vec!["EXPIRE", "k", "100"], vec!["PEXPIRE", "k", "100000"], vec!["PERSIST", "k"], vec!["EXPIRE", "k", "0"],
         vec!["FLUSHDB"], vec!["FLUSHALL"],
         vec!["LPUSH", "k", "a"], vec!["RPUSH", "k", "a"], vec!["LPOP", "k"], vec!["RPOP", "k"], vec!["LSET", "k", "0", "z"], vec!["LTRIM", "k", "1", "0"], vec!["LREM", "k", "0", "a"], vec!["BLPOP", "k", "0"],
         vec!["SADD", "k", "m"], vec!["SREM", "k", "a"], vec!["SPOP", "k", "9"],
@@ -71,7 +74,7 @@ fn plan() -> Plan {
         for w in writes() {
             let wn = w.join(" ");
             // a second key for the RENAME-to-k forms
-            let needs_j = w.iter().skip(1).any(|a| *a == "j") && w[1] == "j";
+            let needs_j = w[0].starts_with("RENAME") && w[1] != "k";
             for path in ["other", "same-before-multi", "other-in-exec", "other-via-eval"] {
                 if w[0] == "BLPOP" && (path == "other-via-eval" || sname != "list") {
                     continue; // scripts may not block; on anything but a non-empty list the command would block
@@ -84,7 +87,7 @@ fn plan() -> Plan {
                     h.push(idx(cmd(1, sc), &mut acts));
                 }
                 if needs_j {
-                    h.push(idx(cmd(1, &["SET", "j", "jv"]), &mut acts));
+                    h.push(idx(cmd(1, &["SET", w[1], "jv"]), &mut acts));
                 }
                 h.push(idx(cmd(0, &["WATCH", "k"]), &mut acts));
                 match path {
